@@ -410,7 +410,7 @@ expand_one_env = Fn(S, 'expand_one_env', ret='r',
            why='libc::getpid() through a shim (unsafe block removed); Display for i32 through vx_int_to_string'),
     ],
     int_args=('sh.previous_status',),
-    ensures=[('C10+C05.one_env.leftmost_reference_replaced_by_its_value_rest_returned_separately',
+    ensures=[('C10+C03+C05.one_env.leftmost_reference_replaced_by_its_value_rest_returned_separately',
               'r.0@ == one_env(*sh, token@).0 && r.1@ == one_env(*sh, token@).1'),
              ('C10+C05.one_env.rest_is_shorter', 'r.1@.len() < token@.len() || r.1@.len() == 0')],
 )
@@ -573,7 +573,7 @@ do_expansion = Fn(S, 'do_expansion', add_params='Tracked(tr): Tracked<&mut PassT
     pre_rewrites=TYRW + [Rw(p_ + ';', 'vx_pass(sh, tokens, %d, Tracked(tr));' % i, required=False, rule='R8',
                             why='pass call recorded in a ghost trace (the pass itself is under contract in its own unit)') for i, p_ in enumerate(PASSES)]
                       + [Rw('parsers::parser_line::tokens_to_line(', 'tokens_to_line(', required=False, rule='R0')],
-    ensures=[('C12+C11+C13.expansion.passes_run_in_the_fixed_order',
+    ensures=[('C12+C11+C13+C17+C10.expansion.passes_run_in_the_fixed_order',
               'final(tr).t == old(tr).t || final(tr).t == old(tr).t + seq![0int, 1int, 2int, 3int, 4int, 5int, 6int]')],
 )
 
